@@ -129,7 +129,19 @@ def make_spec(cs, params):
     return s
 
 
+def stubtest_job(job):
+    from . import stubtest
+    agg = batch.Agg()
+    errs, info = stubtest.run_all(job["seed"], job["n"])
+    agg.harness_errors.extend(errs)
+    for k, v in info.items():
+        agg.notes["stubtest:" + k] += v
+    return agg.to_dict()
+
+
 def run_job(job):
+    if job.get("kind") == "stubtest":
+        return stubtest_job(job)
     if job.get("kind") == "repeat":
         return repeat_job(job)
     if job.get("kind") == "realproc":
@@ -261,13 +273,20 @@ def repeat_replay(spec):
         f.write(cs["text"])
     try:
         argv = ["--arch", cs["arch"], "--lcd-timeout", "-1"] + (["-f"] if cs.get("flag_deps") else []) + [path]
-        outs = []
-        for hs, ncpu in spec["grid"]:
-            rc, text, err = cli_run(root, argv, ncpu, hs, spec.get("threshold"))
-            outs.append((rc, text.replace(path, "<kernel>")))
-        if outs[0] != outs[1]:
-            return [{"property": PROP, "class": "report_differs_between_runs", "site": "cli",
-                     "detail": "reports differ between %r and %r" % tuple(spec["grid"]), "facts": {}}], "", []
+        # real processes, real scheduler: not a deterministic replay — the configuration is re-run up to
+        # five times and counts as reproduced if the two reports differ at least once
+        for attempt in range(5):
+            outs = []
+            for i, (hs, ncpu) in enumerate(spec["grid"]):
+                thr = spec.get("threshold")
+                if spec.get("thresholds"):
+                    thr = spec["thresholds"][i]
+                rc, text, err = cli_run(root, argv, ncpu, hs, thr)
+                outs.append((rc, text.replace(path, "<kernel>")))
+            if outs[0] != outs[1]:
+                return [{"property": PROP, "class": spec.get("class", "report_differs_between_runs"), "site": spec.get("site", "cli"),
+                         "detail": "reports differ between %r and %r (attempt %d)" % (tuple(spec["grid"][0]), tuple(spec["grid"][1]), attempt + 1),
+                         "facts": {}}], "", []
         return [], "", []
     finally:
         os.unlink(path)
@@ -297,7 +316,8 @@ def realproc_job(job):
             if seq != par:
                 import difflib
                 d = list(difflib.unified_diff(seq.split("\n"), par.split("\n"), lineterm="", n=0))[:8]
-                spec = {"property": PROP, "kind": "repeat", "case": cs, "grid": [[0, 1], [0, job["ncpu"]]]}
+                spec = {"property": PROP, "kind": "repeat", "case": cs, "grid": [[0, 1], [0, job["ncpu"]]],
+                        "thresholds": [10 ** 9, 1], "class": "parallel_differs_from_sequential", "site": "real-multiprocessing"}
                 agg.violations.append({
                     "property": PROP, "class": "parallel_differs_from_sequential", "site": "real-multiprocessing",
                     "detail": "real multiprocessing run with %d workers differs from the sequential run: %r" % (job["ncpu"], d),
@@ -374,6 +394,7 @@ def build_jobs(tier, seed):
         hs = [0, 1, 2, 3, "random"]
         grid = [[h, c] for h in (hs if tier != "quick" else [0, 3, "random"]) for c in ([1, 3, 16] if tier != "quick" else [1, 16])]
         jobs.append({"kind": "repeat", "case": cs, "grid": grid, "seed": seed})
+    jobs.insert(0, {"kind": "stubtest", "seed": seed, "n": 40 if tier == "quick" else 400})
     nreal = 6 if tier == "quick" else 60
     for j in range(nreal):
         cs = cases[rng.randrange(len(cases))]
